@@ -109,4 +109,49 @@ CHECKS = {
              "iteration count equals the announced count is argued from the "
              "head/tail slice structure, not by a machine-checked "
              "invariant. Assumes assert statements are enabled."),
+    "C06": dict(
+        technique="typestate / dominance analysis over the burst loop's CFG "
+                  "with fact invalidation by re-definition or mutation, "
+                  "symbolic values, constant folding of the return-code "
+                  "tables",
+        text="For every schedule of losses/duplicates/reordering the "
+             "structural necessary conditions hold on all paths: the "
+             "outstanding table grows at one site dominated by a still-valid "
+             "len(table) < window test (R1) and a still-valid 'seq not in "
+             "table' test for the very key inserted, from the once-created "
+             "16-bit per-connection counter (R2); callbacks run only on "
+             "pairs taken from the completion queue, which is fed only where "
+             "the matching entry was just popped, with that datagram's bytes; "
+             "the loop cannot end with work pending (R3); retransmission "
+             "only after the deadline and below the try limit, followed by "
+             "try-count +1 and deadline = now + timeout; TimeoutError only "
+             "when expired and exhausted (R4); {ok}/retryable/fatal "
+             "partition the enum whose wire values equal SC&MP's (R5); reply "
+             "offset 10 (R6).",
+        note="Not decided: real-time behaviour, 16-bit wrap with a command "
+             "outstanding beyond the skip loop (XXX in source), malformed "
+             "datagrams, termination beyond the bounded try counter. "
+             "Trusted: SC&MP return-code table transcribed in rules/C06.py."),
+    "C07": dict(
+        technique="abstract interpretation (linear constraints + "
+                  "Fourier-Motzkin, slice-length and floor-division axioms) "
+                  "for chunk tiling; symbolic per-iteration cursor advance; "
+                  "constant folding of the access-type table; role inference "
+                  "for argument forwarding",
+        text="For every address/length/buffer size: in SCPConnection.read/"
+             "write and MachineController.read/write_across_link each "
+             "command's chunk satisfies 1 <= chunk <= remaining (and <= "
+             "buffer), every cursor advances by exactly the chunk, nothing "
+             "remains at loop exit: commands tile the request without gap or "
+             "overlap; each read callback owns the result slice of its "
+             "command (R1). address_length_dtype folded and equal to the "
+             "alignment rule on all 16 residues; the key is (A%4, N%4) of "
+             "the A, N actually sent (R2). Payload offset 14 (R3). Struct "
+             "and per-core field address formulas; fill alignment branch "
+             "(R4). x/y/p/address/length forwarded role-preservingly to the "
+             "connection (R5).",
+        note="Not decided: faults beyond C06; the machine's side; that link "
+             "chunks stay word multiples inside the loop (only the %4 entry "
+             "guards). Assumes advertised buffer size >= 1 (>= 4 for links) "
+             "and non-negative lengths."),
 }
